@@ -46,8 +46,9 @@ static volatile int never;
 static volatile int driver_done;
 static int hbudget, quick_target;
 static int spawning = -1;
+static int respawns_left;
 
-enum { CMD_SPAWN, CMD_BYPID, CMD_UNREG, CMD_KILL, CMD_CLEAN, CMD_EXIT };
+enum { CMD_SPAWN, CMD_BYPID, CMD_UNREG, CMD_KILL, CMD_CLEAN, CMD_EXIT, CMD_RESPAWN };
 
 static int cur_loop(void)
 {
@@ -188,6 +189,23 @@ static void cmd_handler(void *_l)
 		if (c->reg && c->owner == l) {
 			int r = iv_wait_interest_kill(c->wi, SIGTERM);
 			mc_obs("L%d:kill-C%d=%d", l, a, r < 0 ? -1 : 0);
+			if (r < 0 && c->proc && c->proc->state != PR_REAPED)
+				mc_fail("wait-kill-refused", "the kill helper refused to signal child %d (pid %d) although its termination has not been reaped", a, c->pid);
+		}
+		break;
+	case CMD_RESPAWN:
+		if (c->reg && c->owner == l && c->dead_delivered) {
+			/* the interest of a child that is dead and reported is unregistered, and the very same struct (initialised
+			 * once) is used to spawn the next child */
+			mc_obs("L%d:respawn-C%d", l, a);
+			iv_wait_interest_unregister(c->wi);
+			c->nchanges = c->delivered = c->dead_delivered = 0;
+			c->state = 0;
+			c->quick = 0;
+			spawning = a;
+			if (iv_wait_interest_register_spawn(c->wi, child_side, NULL) != 0)
+				mc_fail("try-failed", "iv_wait_interest_register_spawn failed");
+			spawning = -1;
 		}
 		break;
 	case CMD_CLEAN:
@@ -305,7 +323,16 @@ static void driver(void *dummy)
 				menu[n] = 4; a1[n] = i; a2[n++] = 0;
 				menu[n] = 5; a1[n] = i; a2[n++] = 0;
 			}
+		for (i = 0; i < NC; i++)
+			if (C[i].reg && C[i].dead_delivered && respawns_left > 0 && (C[i].kind == K_SPAWN0 || C[i].kind == K_SPAWN1)) {
+				menu[n] = 6; a1[n] = i; a2[n++] = 0;
+			}
 		c = mc_choose(n, MC_ACTION, "driver-step");
+		if (menu[c] == 6) {
+			respawns_left--;
+			command(C[a1[c]].owner, CMD_RESPAWN, a1[c]);
+			continue;
+		}
 		switch (menu[c]) {
 		case 0: goto out;
 		case 1: change(a1[c], a2[c]); sigchld_to(2); break;
@@ -392,6 +419,7 @@ static void exec_one(void)
 	sched_signal_atomic = 0;
 	sched_max_points = mc_arg_int("maxpoints", 8000);
 	hbudget = mc_arg_int("hacts", 1);
+	respawns_left = mc_arg_int("respawns", 1);
 	method = mc_arg_int("method", 0);
 	env_exclude_methods = excl[method];
 	{
